@@ -23,7 +23,7 @@ class C09(Check):
     technique = ("Coq theorems (table laws: what is stored under a key is found under it, other keys are independent cells, delete removes; structure members "
                  "are pairwise disjoint) + the real Python API against a bpf() stand-in and the REAL generated program in the Coq ISA model with hash maps, "
                  "exchanging the map contents in both directions")
-    trusted = ["coq/Ebpf/Isa.v (kernel-validated) + coq/Corr/C09.v (hash-map helper calls 1/2/3 as a wrapper around it; NOT validated against the kernel)",
+    trusted = ["coq/Ebpf/Isa.v (kernel-validated) + coq/Corr/C09.v (hash-map helper calls 1/2/3 as a wrapper around it; validated against the running kernel on every run by harness/hash_check.py when bpf() is permitted; an update of an existing key writes in place, so a pointer kept across an update of the same key differs from the kernel's copy-on-update)",
                "harness/sim_bpf.py (the user-space side of the same maps)"]
     assumptions = ["little-endian host"]
     known_classes = {}
@@ -299,6 +299,10 @@ class C09(Check):
 
     def nontrivial(self, case, o):
         return not isinstance(o, Err)
+
+    def extra_checks(self):
+        from . import hash_check, isa_check
+        return [isa_check.check(self.seed + 5, 40 if self.tier == "quick" else 300), hash_check.check(self.seed + 6, 60 if self.tier == "quick" else 600)]
 
     def rule(self):
         return ("0-4 hash-map variables (all formats incl. x) with declared defaults, 60% rewritten from Python; a Dict (1-3 key and value members of all sizes, "
